@@ -58,10 +58,10 @@ func secretOf(access string) (string, bool) {
 	return "", false
 }
 
-var defects = []string{"no-auth", "empty-auth", "malformed", "unknown-key", "wrong-secret", "sig-digit", "sig-zero",
+var defects = []string{"no-auth", "empty-auth", "malformed", "unknown-key", "wrong-secret", "sig-digit", "sig-form", "sig-zero",
 	"alter-header", "dup-header", "alter-query", "alter-path", "alter-payload", "payload-hash", "date-skew", "scope-date", "scope-region",
 	"scope-service", "scope-term"}
-var presignDefects = []string{"expired", "date-future", "value-delims", "expires-altered", "sig-digit", "sig-zero", "alter-query", "alter-path", "param-missing",
+var presignDefects = []string{"expired", "date-future", "value-delims", "expires-altered", "sig-digit", "sig-form", "sig-zero", "alter-query", "alter-path", "param-missing",
 	"unknown-key", "wrong-secret", "scope-region"}
 
 // buildValid returns the signed, undamaged request.
@@ -156,6 +156,28 @@ func sigOf(auth string) string {
 	return auth[i+len("Signature="):]
 }
 
+// reformSig: the right signature in another written form - other letter case, something appended, a prefix of it: as a
+// text it is no longer the signature of this request.
+func reformSig(sig string, arg int) string {
+	switch arg % 5 {
+	case 0:
+		return strings.ToUpper(sig)
+	case 1:
+		for i := 0; i < len(sig); i++ {
+			if at := (arg/5 + i) % len(sig); sig[at] >= 'a' && sig[at] <= 'f' {
+				return sig[:at] + strings.ToUpper(sig[at:at+1]) + sig[at+1:]
+			}
+		}
+		return sig + "0"
+	case 2:
+		return sig + "0"
+	case 3:
+		return sig + "zz-not-hex"
+	default:
+		return sig + sig
+	}
+}
+
 // damage applies the defect to a valid signed request.
 func damage(r *s3c.Req, c caseA, now time.Time) {
 	cr := creds(c.Caller)
@@ -204,6 +226,8 @@ func damage(r *s3c.Req, c caseA, now time.Time) {
 			qset("X-Amz-Expires", fmt.Sprint(301+c.Arg%100000))
 		case "sig-digit":
 			qset("X-Amz-Signature", flipHex(qget("X-Amz-Signature"), c.Arg))
+		case "sig-form":
+			qset("X-Amz-Signature", reformSig(qget("X-Amz-Signature"), c.Arg))
 		case "sig-zero":
 			qset("X-Amz-Signature", strings.Repeat("0", 64))
 		case "alter-query":
@@ -255,6 +279,8 @@ func damage(r *s3c.Req, c caseA, now time.Time) {
 		resign(r, s3c.Creds{Access: cr.Access, Secret: cr.Secret + "x"}, now, gw.Region, "s3")
 	case "sig-digit":
 		r.Set("Authorization", replaceSig(auth, flipHex(sigOf(auth), c.Arg)))
+	case "sig-form":
+		r.Set("Authorization", replaceSig(auth, reformSig(sigOf(auth), c.Arg)))
 	case "sig-zero":
 		r.Set("Authorization", replaceSig(auth, strings.Repeat("0", 64)))
 	case "alter-header":
@@ -334,6 +360,11 @@ func damage(r *s3c.Req, c caseA, now time.Time) {
 			b[c.Arg%len(b)] ^= 0x20
 		}
 		r.Body = b
+		if (c.Arg/16)%2 == 1 {
+			// ... and a (not signed) Content-MD5 that fits the altered body: one integrity field agreeing with the
+			// bytes does not make up for the signed one that does not
+			r.Set("Content-MD5", s3c.MD5B64(b))
+		}
 	case "payload-hash":
 		// consistently signed, but the declared payload hash is not the body's
 		r.Set("X-Amz-Content-Sha256", s3c.SHA256Hex([]byte("some other content")))
@@ -635,6 +666,11 @@ func genCase(t *rapid.T) caseA {
 		c.Short = rapid.IntRange(0, 5).Draw(t, "short") == 0
 	}
 	c.Arg = rapid.IntRange(0, 63).Draw(t, "arg")
+	if (c.Defect == "alter-payload" || c.Defect == "payload-hash") && rapid.Bool().Draw(t, "body_op") {
+		// defects of the body matter most where the body is the object: the streaming uploads, whose payload is
+		// compared with the signed hash only when the handler has read it to its end
+		c.Spec.Op = rapid.SampledFrom([]string{"PutObject", "PutObject", "UploadPart"}).Draw(t, "body_op_name")
+	}
 	if rapid.IntRange(0, 9).Draw(t, "free") == 0 {
 		c.ExtraQuery = []s3c.KV{{K: rapid.SampledFrom([]string{"acl", "tagging", "versioning", "policy", "object-lock", "ownershipControls", "cors", "uploads", "uploadId", "partNumber", "versions", "versionId", "retention", "legal-hold", "attributes", "restore", "delete", "list-type", "x-id"}).Draw(t, "xq"), V: rapid.SampledFrom([]string{"", "1", "2"}).Draw(t, "xqv")}}
 	}
